@@ -1011,6 +1011,81 @@ func r14CallSites(c *RuleCtx) {
 				}
 			}
 		}
+		// ... or the writer is set up over the buffer by a helper that is handed the buffer (`acquireInterim(&br)`)
+		writerSetUpBy := func(g *ssa.Function, pi int) bool {
+			if g == nil || !c.p.InZap(g) || len(g.Blocks) == 0 || pi >= len(g.Params) {
+				return false
+			}
+			prm := g.Params[pi]
+			over := func(v ssa.Value) bool {
+				if mi, ok := v.(*ssa.MakeInterface); ok {
+					v = mi.X
+				}
+				return root(v) == ssa.Value(prm) || v == ssa.Value(prm)
+			}
+			sub := func(in ssa.Instruction, ev uint64, _ bool) []uint64 {
+				switch x := in.(type) {
+				case *ssa.Store:
+					if sn2, fld2, _, ok := fieldOf(x.Addr); ok && sn2 == "interim" && fld2 == "w" {
+						if mk, ok := x.Val.(*ssa.Call); ok && len(mk.Call.Args) > 0 && over(mk.Call.Args[0]) {
+							if cf := mk.Call.StaticCallee(); cf != nil && cf.Signature.Recv() == nil && isNamed(cf.Signature.Results().At(0).Type(), zapPkgPath, "CountHashWriter") {
+								return []uint64{ev | 1}
+							}
+						}
+						return []uint64{ev &^ 1}
+					}
+				case ssa.CallInstruction:
+					callee := staticCallee(x)
+					if callee != nil && c.p.InZap(callee) && callee.Signature.Recv() != nil && len(x.Common().Args) > 1 && isLoadOfField(x.Common().Args[0], "interim", "w") {
+						hasBuf := false
+						for _, a := range x.Common().Args[1:] {
+							if over(a) {
+								hasBuf = true
+							}
+						}
+						if hasBuf && c.p.mustStoreField(callee, "CountHashWriter", "crc", 0) && c.p.mustStoreField(callee, "CountHashWriter", "n", 0) && c.p.mustStoreField(callee, "CountHashWriter", "w", 0) {
+							return []uint64{ev | 1}
+						}
+					}
+				}
+				return nil
+			}
+			spa := newPathAnalysis(g, sub)
+			spa.run(0)
+			n := 0
+			for _, ret := range returnsOf(g) {
+				for _, ev := range spa.statesBefore(ret) {
+					n++
+					if ev&1 == 0 {
+						return false
+					}
+				}
+			}
+			return n > 0
+		}
+		setUpCalls := map[ssa.Instruction]bool{}
+		if buf != nil {
+			for _, cs2 := range callSites(nw) {
+				g := staticCallee(cs2)
+				for ai, a := range cs2.Common().Args {
+					if mi, ok := a.(*ssa.MakeInterface); ok {
+						a = mi.X
+					}
+					if root(a) == buf && writerSetUpBy(g, ai) {
+						setUpCalls[cs2] = true
+					}
+				}
+			}
+		}
+		if !crcOK && len(setUpCalls) > 0 {
+			if call, ok := root(args[1]).(*ssa.Call); ok {
+				if cf := call.Call.StaticCallee(); cf != nil && cf.Name() == "Sum32" {
+					if sn, fld, _, ok := loadedField(call.Call.Args[0]); ok && sn == "interim" && fld == "w" {
+						crcOK = true
+					}
+				}
+			}
+		}
 		if !crcOK {
 			bad = append(bad, "CRC argument is not the Sum32() of the counting writer built over that same buffer")
 		}
@@ -1029,6 +1104,9 @@ func r14CallSites(c *RuleCtx) {
 						return []uint64{ev &^ 1}
 					}
 				case ssa.CallInstruction:
+					if setUpCalls[in] {
+						return []uint64{ev | 1}
+					}
 					callee := staticCallee(x)
 					if callee != nil && c.p.InZap(callee) && callee.Signature.Recv() != nil && len(x.Common().Args) > 0 && isLoadOfField(x.Common().Args[0], "interim", "w") {
 						if c.p.mustStoreField(callee, "CountHashWriter", "crc", 0) && c.p.mustStoreField(callee, "CountHashWriter", "n", 0) {
